@@ -49,7 +49,8 @@ def run_case(case, ctx):
     rng = np_rng(ID, case["seed"], kind, nv, case["rep"])
     nh = int(rng.integers(1, 5))
     na = int(rng.integers(1, 4))
-    scales = gen.SCALES_MODERATE if case["rep"] % 3 else [0.5, 1.0, 3.0, 10.0]
+    scales = [gen.SCALES_MODERATE, [0.5, 1.0, 3.0, 10.0], gen.SCALES_MODERATE, gen.SCALES_FULL][case["rep"] % 4]
+    ctx.seen("scale_classes", case["rep"] % 4)
     am, ph = gen.draw_model(rng, kind, nv, nh, na, scales=scales)
     obs = []
     for ab in (False, True):
@@ -133,7 +134,9 @@ def run_case(case, ctx):
                 continue
             idx = rows if rows is not None else [R.index_of(single[0].numpy())]
             ref = v[idx]
-            if np.any(np.abs(vb.numpy() - ref) > 1e-12 * (1 + np.abs(ref))):
+            # per-site importance ratios of both signs are summed: rounding scales with the largest term, for which the
+            # largest value over the basis is a proxy (batched kernels differ in the last bits between batch shapes)
+            if np.any(np.abs(vb.numpy() - ref) > 1e-11 * (1 + np.abs(v).max())):
                 ctx.violation("batch-dependence", f"{name}: the value of a sample depends on the batch it is evaluated in ({bname})",
                               tags=dict(tags, obs=name.split("(")[0]), witness=wit)
             if not torch.equal(batch, bk):
@@ -153,7 +156,7 @@ def run_case(case, ctx):
         ctx.count("in_place_refill_checks")
         for vv, rr, what in ((v1, rows1, "first fill"), (v2, rows2, "after an in-place refill")):
             ref = plain[name][rr]
-            if tuple(vv.shape) != (len(rr),) or np.any(np.abs(vv.numpy() - ref) > 1e-12 * (1 + np.abs(ref))):
+            if tuple(vv.shape) != (len(rr),) or np.any(np.abs(vv.numpy() - ref) > 1e-11 * (1 + np.abs(plain[name]).max())):
                 ctx.violation("stale-buffer", f"{name}: values on a re-used sample buffer ({what}) are not those of its current rows",
                               tags=dict(tags, obs=name.split("(")[0]), witness=wit)
                 break
